@@ -266,6 +266,11 @@ def judge(prop, c, i, s):
 def run(prop, tier, seed):
     rep = vlib.Report(prop, tier, seed)
     rng = random.Random(seed * 7919 + int(prop[1:]))
+    check_into(rep, prop, tier, rng)
+    return rep.finish()
+
+
+def check_into(rep, prop, tier, rng):
     vlib.proof_step(rep, "Properties_" + prop)
     dist = leaf.Dist()
     cases = (gen_c01 if prop == "C01" else gen_c08)(rng, tier, dist)
@@ -278,7 +283,7 @@ def run(prop, tier, seed):
     except vlib.HarnessBuildError as e:
         rep.broken("correspondence:%s:harness-does-not-build" % prop, str(e)[-1500:])
         rep.coverage.update(evaluations=0, distinct_nontrivial=0, samples=[], rule="harness did not build")
-        return rep.finish()
+        return
     env = dict(os.environ, ASAN_OPTIONS="detect_leaks=0:abort_on_error=0", UBSAN_OPTIONS="print_stacktrace=1")
     impl = vlib.run_lines(exe, cases, work, tier + "-impl", env=env)
     ms = vlib.run_lines(drv, cases, work, tier + "-model")
@@ -315,7 +320,7 @@ def run(prop, tier, seed):
         samples=[dict(case=cases[i][:300], implementation=impl[i][:200]) for i in idx])
     rep.assumptions = ["boost::asio::read_until over a capped dynamic string buffer behaves as modelled (validated by running it)",
                        "the in-memory transport stands for the socket: read sizes, EOF and errors are as scheduled"]
-    return rep.finish()
+    return
 
 
 def replay(prop, path):
